@@ -18,8 +18,20 @@ package caches
 //     full scan interval.
 //   - stream "conc": a sequential prefix, then several goroutines issue operations at once;
 //     results, invocation/response stamps and the final state go to the model, which searches
-//     for a linearisation (validation).  With VERIF_C28_MODE=race only this stream and a
-//     PurgeAll stress run (meant for `go test -race`).
+//     for a linearisation (validation).  With VERIF_C28_MODE=race only this stream, the
+//     hammer stream and a PurgeAll stress run (meant for `go test -race`); VERIF_C28_MODE=hammer
+//     runs the hammer stream alone (to measure its hit rate).
+//   - stream "hammer": bursts of real parallelism on ONE or two keys of one class: writer
+//     goroutines loop over a short add/del/find/sweep program while many reader goroutines
+//     call Find on the same keys (tight, runtime.Gosched or busy-spin spacing).  Model-free
+//     oracle: with a single writer every one of its results, Size and the eviction reports are
+//     determined (readers only refresh deadlines), so the sequential ledger checks each of its
+//     operations; with several writers the operations carry invocation/response stamps.  After
+//     every burst, once all goroutines have joined (quiescent point): a key whose last
+//     completed write was a Delete/sweep must not be found, a key whose Add(v) happened after
+//     every other write must return v (in general: the final state is the effect of a write
+//     that no other write on that key follows in real time), Size equals the number of keys
+//     found, and no key is reported to the listener more often than it was stored.
 //   - lock discipline: every function of the package that touches a package-level map which
 //     is written at run time does so with cacheLock held (checked on the source with go/ast).
 
@@ -31,6 +43,7 @@ import (
 	"go/token"
 	"math/rand"
 	"os"
+	"runtime"
 	"sort"
 	"strconv"
 	"strings"
@@ -416,6 +429,7 @@ type c28Oracle struct {
 	m           map[[2]int]*c28Entry
 	fails       []verifh.Failure
 	input       string
+	note        string // where in a run the oracle is (prefixed to What)
 }
 
 func newC28Oracle(h c28History) *c28Oracle {
@@ -425,7 +439,7 @@ func newC28Oracle(h c28History) *c28Oracle {
 func (o *c28Oracle) fail(class, what, got, want string) {
 	// only the first failure of a history: later ones may be consequences of it
 	if len(o.fails) < 1 {
-		o.fails = append(o.fails, verifh.Failure{Class: class, What: what, Input: o.input, Got: got, Want: want})
+		o.fails = append(o.fails, verifh.Failure{Class: class, What: o.note + what, Input: o.input, Got: got, Want: want})
 	}
 }
 
@@ -1029,6 +1043,451 @@ func c28Stress(t *testing.T, rounds int) {
 	})
 }
 
+// ---------------------------------------------------------------- hammer bursts (parallel, one hot key)
+
+type c28Burst struct {
+	max     int
+	prefix  []c28Op   // sequential, before the goroutines start (lifetime set-up)
+	writers [][]c28Op // one looping program per writer goroutine
+	rounds  int       // how often each writer runs its program
+	readers int       // goroutines calling Find until the writers are done
+	rkeys   []int     // keys (class 0) the readers cycle through
+	spread  string    // spacing between reader calls: tight | gosched | spin (busy loop of random length < 400) | spin4k | spin40k
+}
+
+func c28OpList(ops []c28Op) string {
+	parts := make([]string, len(ops))
+	for i, o := range ops {
+		parts[i] = o.input()
+	}
+
+	return strings.Join(parts, ";")
+}
+
+func (b c28Burst) input() string {
+	s := c28History{max: b.max, ops: b.prefix}.input()
+
+	for _, w := range b.writers {
+		s += fmt.Sprintf(" || W x%d: %s", b.rounds, c28OpList(w))
+	}
+
+	finds := make([]c28Op, len(b.rkeys))
+	for i, k := range b.rkeys {
+		finds[i] = c28Op{kind: "find", k: k}
+	}
+
+	return s + fmt.Sprintf(" || R x%d: %s (%s)", b.readers, c28OpList(finds), b.spread)
+}
+
+func c28IsBurst(s string) bool { return strings.Contains(s, " || W x") }
+
+func c28ParseBurst(s string) (c28Burst, error) {
+	b := c28Burst{}
+	parts := strings.Split(s, " || ")
+
+	h, err := c28Parse(parts[0])
+	if err != nil {
+		return b, err
+	}
+
+	b.max, b.prefix = h.max, h.ops
+
+	for _, part := range parts[1:] {
+		head, body, found := strings.Cut(part, ": ")
+		if !found || len(head) < 4 {
+			return b, fmt.Errorf("bad burst section %q", part)
+		}
+
+		n, err := strconv.Atoi(head[3:])
+		if err != nil {
+			return b, fmt.Errorf("bad burst section %q", part)
+		}
+
+		switch head[:3] {
+		case "W x":
+			p, err := c28Parse("max=0|" + body)
+			if err != nil {
+				return b, err
+			}
+
+			b.rounds = n
+			b.writers = append(b.writers, p.ops)
+		case "R x":
+			b.readers = n
+			b.spread = "tight"
+
+			if i := strings.LastIndex(body, " ("); i >= 0 && strings.HasSuffix(body, ")") {
+				b.spread = body[i+2 : len(body)-1]
+				body = body[:i]
+			}
+
+			p, err := c28Parse("max=0|" + body)
+			if err != nil {
+				return b, err
+			}
+
+			for _, o := range p.ops {
+				b.rkeys = append(b.rkeys, o.k)
+			}
+		default:
+			return b, fmt.Errorf("bad burst section %q", part)
+		}
+	}
+
+	if len(b.writers) == 0 || b.rounds < 1 || len(b.rkeys) == 0 {
+		return b, fmt.Errorf("bad burst %q", s)
+	}
+
+	return b, nil
+}
+
+func c28GenBurst(r0 *rand.Rand) c28Burst {
+	b := c28Burst{rounds: verifh.N(40, 300) + r0.Intn(verifh.N(40, 300)), readers: 2 + r0.Intn(5)}
+	b.spread = []string{"tight", "gosched", "spin", "spin4k", "spin40k"}[r0.Intn(5)]
+
+	// one hot key mostly; sometimes a second one, so that capacity takes part
+	hot := []int{r0.Intn(len(c28Keys))}
+	if r0.Intn(4) == 0 {
+		hot = append(hot, (hot[0]+1+r0.Intn(len(c28Keys)-1))%len(c28Keys))
+	}
+
+	b.rkeys = hot
+
+	// a positive lifetime (nothing expires: the bubble's clock stands still during a burst) or a
+	// negative one (every entry is expired at once and a sweep works like a delete of the class)
+	life := []string{"1h", "1h", "-5s", ""}[r0.Intn(4)]
+	for _, d := range c28Durations {
+		if d.text == life && d.ok {
+			b.prefix = append(b.prefix, c28Op{kind: "setexp", d: d.secs, text: d.text, ok: true})
+		}
+	}
+
+	nWriters := 1
+	if r0.Intn(3) == 0 {
+		nWriters = 2 + r0.Intn(2)
+	}
+
+	if nWriters == 1 {
+		b.max = 1 + r0.Intn(3)
+	} else {
+		b.max = len(hot) + r0.Intn(2) // several writers: every Add is accepted
+	}
+
+	for w := 0; w < nWriters; w++ {
+		for {
+			prog := []c28Op{}
+			adds, removes := 0, 0
+
+			for i, n := 0, 2+r0.Intn(6); i < n; i++ {
+				k := hot[0]
+				if r0.Intn(3) == 0 {
+					k = hot[r0.Intn(len(hot))]
+				}
+
+				switch x := r0.Intn(100); {
+				case x < 35:
+					prog = append(prog, c28Op{kind: "add", k: k, v: r0.Intn(4)})
+					if k == hot[0] {
+						adds++
+					}
+				case x < 60:
+					prog = append(prog, c28Op{kind: "del", k: k})
+					if k == hot[0] {
+						removes++
+					}
+				case x < 88 || life != "-5s":
+					prog = append(prog, c28Op{kind: "find", k: k})
+				default:
+					prog = append(prog, c28Op{kind: "sweep"})
+					removes++
+				}
+			}
+
+			if adds > 0 && removes > 0 {
+				b.writers = append(b.writers, prog)
+
+				break
+			}
+		}
+	}
+
+	return b
+}
+
+// the last write of one writer goroutine on one key
+type c28LastWrite struct {
+	op        c28Op
+	present   bool // effect: the key holds op.v afterwards
+	inv, resp int64
+}
+
+var c28Sink atomic.Int64
+
+const c28BurstBudget = 600000
+
+func c28RunBurst(t *testing.T, b c28Burst) (fails []verifh.Failure, writerOps int, readerFinds int64) {
+	input := b.input()
+
+	synctest.Test(t, func(t *testing.T) {
+		h := c28History{max: b.max, ops: b.prefix}
+		r := c28Setup(t, h)
+		oracle := newC28Oracle(h)
+		oracle.input = input
+
+		sizes := func() []int {
+			s := make([]int, c28NClasses)
+			for c := range s {
+				s[c] = Size(r.base + c)
+			}
+
+			return s
+		}
+
+		sweepRemoves := false
+
+		for i, op := range b.prefix {
+			res := r.exec(op)
+			synctest.Wait()
+			oracle.step(i, op, res, 0, r.taken(), sizes())
+
+			if op.kind == "setexp" && op.ok && op.c == 0 {
+				sweepRemoves = op.d < 0
+			}
+		}
+
+		var (
+			stop    atomic.Bool
+			stamp   atomic.Int64
+			finds   atomic.Int64
+			readers sync.WaitGroup
+			writers sync.WaitGroup
+		)
+
+		spinMax := map[string]int{"spin": 400, "spin4k": 4000, "spin40k": 40000}[b.spread] + 1
+		single := len(b.writers) == 1
+		gate := make(chan struct{})
+		last := make([]map[int]c28LastWrite, len(b.writers))
+		adds := make([]map[int]int, len(b.writers))
+
+		for g := 0; g < b.readers; g++ {
+			readers.Add(1)
+
+			go func(g int) {
+				defer readers.Done()
+
+				rnd := rand.New(rand.NewSource(int64(g)))
+				n := int64(0)
+
+				<-gate
+
+				for i := g; !stop.Load(); i++ {
+					Find(r.base, c28Keys[b.rkeys[i%len(b.rkeys)]])
+
+					if n++; n%256 == 0 {
+						finds.Add(256)
+					}
+
+					switch b.spread {
+					case "gosched":
+						if i%3 != 0 {
+							runtime.Gosched()
+						}
+					case "spin", "spin4k", "spin40k":
+						x := 0
+						for j, m := 0, rnd.Intn(spinMax); j < m; j++ {
+							x += j
+						}
+
+						c28Sink.Add(int64(x & 1))
+					}
+				}
+
+				finds.Add(n % 256)
+			}(g)
+		}
+
+		for w := range b.writers {
+			last[w] = map[int]c28LastWrite{}
+			adds[w] = map[int]int{}
+
+			writers.Add(1)
+
+			go func(w int, prog []c28Op) {
+				defer writers.Done()
+
+				<-gate
+
+				n := len(b.prefix)
+
+				// the writers are one among many contenders for the lock: a burst also ends when the
+				// readers have made c28BurstBudget calls (bounds the cost on a loaded machine)
+				for round := 0; round < b.rounds && finds.Load() < c28BurstBudget; round++ {
+					for _, op := range prog {
+						inv := stamp.Add(1)
+						res := r.exec(op)
+						resp := stamp.Add(1)
+
+						if single {
+							// one writer: readers change no value, so each result is determined
+							oracle.note = fmt.Sprintf("burst, writer round %d: ", round)
+							oracle.step(n, op, res, 0, r.taken(), sizes())
+
+							if len(oracle.fails) > 0 {
+								return
+							}
+						}
+
+						n++
+
+						switch {
+						case op.kind == "add":
+							adds[w][op.k]++
+							last[w][op.k] = c28LastWrite{op: op, present: true, inv: inv, resp: resp}
+						case op.kind == "del":
+							last[w][op.k] = c28LastWrite{op: op, inv: inv, resp: resp}
+						case op.kind == "sweep" && sweepRemoves:
+							for _, k := range b.rkeys {
+								last[w][k] = c28LastWrite{op: op, inv: inv, resp: resp}
+							}
+						}
+
+						if round%2 == 1 {
+							runtime.Gosched()
+						}
+					}
+				}
+			}(w, b.writers[w])
+		}
+
+		close(gate)
+		writers.Wait()
+		stop.Store(true)
+		readers.Wait()
+		synctest.Wait()
+
+		readerFinds = finds.Load()
+		writerOps = int(stamp.Load() / 2)
+
+		// ---- quiescent point: every goroutine has joined
+		if single {
+			if len(oracle.fails) == 0 {
+				oracle.note = "quiescent point after the burst (all goroutines joined): "
+				oracle.step(writerOps+len(b.prefix), c28Op{kind: "find", k: b.rkeys[0]}, r.exec(c28Op{kind: "find", k: b.rkeys[0]}), 0, r.taken(), sizes())
+
+				for c := 0; c < c28NClasses; c++ {
+					for k := range c28Keys {
+						op := c28Op{kind: "find", c: c, k: k}
+						oracle.step(writerOps+len(b.prefix), op, r.exec(op), 0, r.taken(), nil)
+					}
+				}
+			}
+
+			fails = oracle.fails
+		} else {
+			fail := func(class, what, got, want string) {
+				if len(fails) == 0 {
+					fails = append(fails, verifh.Failure{Class: class, What: "quiescent point after the burst (all goroutines joined): " + what, Input: input, Got: got, Want: want})
+				}
+			}
+
+			evs := r.taken()
+			reports := map[int]int{}
+
+			for _, ev := range evs {
+				if ev.c != 0 {
+					fail("phantom-eviction", "eviction reported for a class nobody wrote to", c28ShowEv(evs), "")
+				}
+
+				reports[ev.k]++
+			}
+
+			hits := 0
+
+			for k := range c28Keys {
+				res := r.exec(c28Op{kind: "find", k: k})
+				if res != "miss" {
+					hits++
+				}
+
+				// the final state is the effect of a write that no other write on the key follows in real time
+				cands := []c28LastWrite{}
+				stored := 0
+
+				for w := range last {
+					stored += adds[w][k]
+
+					lw, wrote := last[w][k]
+					if !wrote {
+						continue
+					}
+
+					final := true
+
+					for w2 := range last {
+						if l2, wrote2 := last[w2][k]; wrote2 && w2 != w && l2.inv > lw.resp {
+							final = false
+						}
+					}
+
+					if final {
+						cands = append(cands, lw)
+					}
+				}
+
+				want := []string{}
+				allowed, anyPresent, anyAbsent := false, false, false
+
+				for _, c := range cands {
+					exp := "miss"
+					if c.present {
+						exp = fmt.Sprintf("hit%d", c.op.v)
+						anyPresent = true
+					} else {
+						anyAbsent = true
+					}
+
+					want = append(want, fmt.Sprintf("%s (after %s)", exp, c.op.input()))
+					allowed = allowed || exp == res
+				}
+
+				if len(cands) == 0 {
+					want = []string{"miss"}
+					allowed = res == "miss"
+					anyAbsent = true
+				}
+
+				at := fmt.Sprintf("find 0 %d", k)
+
+				switch {
+				case allowed:
+				case res != "miss" && !anyPresent:
+					fail("value-after-removal", at+": the last completed write(s) on the key removed it, yet Find returns a value", res, strings.Join(want, " | "))
+				case res == "miss" && !anyAbsent:
+					fail("entry-vanished", at+": the last completed write(s) on the key stored a value, yet it is gone", res, strings.Join(want, " | "))
+				default:
+					fail("stale-value", at+": Find returns a value that is not the effect of any write that could be last", res, strings.Join(want, " | "))
+				}
+
+				if reports[k] > stored {
+					fail("concurrent-duplicate-eviction", fmt.Sprintf("entry 0.%d reported %d times but stored only %d times", k, reports[k], stored), c28ShowEv(evs), "")
+				}
+			}
+
+			if size := Size(r.base); size != hits || size > b.max {
+				fail("size-mismatch", fmt.Sprintf("class 0: Size=%d, %d keys are found, limit %d", size, hits, b.max), strconv.Itoa(size), strconv.Itoa(hits))
+			}
+		}
+
+		if r.badTime {
+			fails = append(fails, verifh.Failure{Class: "harness-fractional-time", What: "a time was not a whole number of seconds", Input: input})
+		}
+
+		r.teardown()
+	})
+
+	return fails, writerOps, readerFinds
+}
+
 // ---------------------------------------------------------------- lock discipline (source level)
 
 type c28Lock struct {
@@ -1311,6 +1770,10 @@ func TestVerifC28(t *testing.T) {
 		prefix = "c28r_"
 	}
 
+	if mode == "hammer" {
+		prefix = "c28h_" // only the hammer stream (for measuring its hit rate)
+	}
+
 	cases := verifh.Out(prefix + "cases.jsonl")
 	fails := verifh.Out(prefix + "failures.jsonl")
 	stats := verifh.NewStats()
@@ -1324,12 +1787,17 @@ func TestVerifC28(t *testing.T) {
 	Active(true)
 
 	nConc := verifh.N(400, 12000)
+	nBurst := verifh.N(32, 500)
+	bursts := []c28Burst{}
 
 	if mode == "race" {
 		nConc = verifh.N(150, 3000)
+		nBurst = verifh.N(8, 100)
 
 		c28Stress(t, verifh.N(200, 2000))
 		stats.Inc("stress")
+	} else if mode == "hammer" {
+		nConc = 0
 	} else {
 		scanSecs, _ := time.ParseDuration(scanTime)
 		lifeSecs, _ := time.ParseDuration(expireTime)
@@ -1353,6 +1821,18 @@ func TestVerifC28(t *testing.T) {
 
 			if json.Unmarshal(rp, &v) == nil {
 				for _, f := range v.Failures {
+					if c28IsBurst(f.Input) {
+						if b, err := c28ParseBurst(f.Input); err == nil {
+							for i := 0; i < 5; i++ {
+								bursts = append(bursts, b)
+							}
+
+							stats.Inc("replayed")
+						}
+
+						continue
+					}
+
 					if h, err := c28Parse(strings.SplitN(f.Input, " || ", 2)[0]); err == nil {
 						histories = append(histories, h)
 
@@ -1426,6 +1906,32 @@ func TestVerifC28(t *testing.T) {
 
 		if i < 2 {
 			stats.Sample(input)
+		}
+	}
+
+	rb := verifh.Rand(2828)
+
+	for i := 0; i < nBurst; i++ {
+		bursts = append(bursts, c28GenBurst(rb))
+	}
+
+	for i, b := range bursts {
+		fs, wops, rfinds := c28RunBurst(t, b)
+
+		for _, f := range fs {
+			fails.Write(f)
+		}
+
+		stats.Inc("hammer.bursts")
+		stats.Add("hammer.writer_ops", wops)
+		stats.Add("hammer.reader_finds", int(rfinds))
+
+		if len(b.writers) > 1 {
+			stats.Inc("hammer.multi_writer_bursts")
+		}
+
+		if i >= len(bursts)-2 {
+			stats.Sample(b.input())
 		}
 	}
 }
